@@ -17,6 +17,9 @@ func checkC16(c *Ctx) error {
 	if err != nil {
 		return err
 	}
+	if err := l.FirstBad(); err != nil {
+		return err
+	}
 	c.LoadTime = l.LoadTime
 	pkg := "hx/c16"
 	k1, k2, kpair := 2, 3, 1 // quick: histories of <= k insertions
